@@ -182,7 +182,9 @@ fn run_t<T: Elem>(case: &mut Case) -> Outcome {
         let ex = T::x_to_c(&det_x);
         let exs = (ex.0 * 2f64.powi(total), ex.1 * 2f64.powi(total));
         let err = refla::cabs(refla::csub(db.to_c(), exs));
-        let unit = (n * n * n) as f64 * EPS * infob.growth.max(1.0) * hadamard(&bc);
+        // (rows of very different size after the scaling: the perturbation scale of elimination with partial pivoting is
+        // relative to the largest entry, see util::hadamard_gepp)
+        let unit = (n * n * n) as f64 * EPS * infob.growth.max(1.0) * hadamard_gepp(&bc);
         if unit > 0.0 && unit.is_finite() {
             crate::calib::note("c02.det(scaled rows/cols) err/(n^3 eps rho H)", err / unit, || format!("{} {} n={}", T::NAME, kind, n));
         }
